@@ -366,25 +366,26 @@ Proof.
     destruct (Z.eqb c skip); [discriminate|eapply IH; eassumption].
 Qed.
 
-(* the script is reported skipped exactly when a divider that was printed carries the skip code (the first such test case
-   is named), or the script itself ended in the skip code -- whether or not a later test case ended the script early *)
+(* the script is reported skipped exactly when a divider that was printed -- by a test case before the one that timed out,
+   killed the shell or left the script, if any did -- carries the skip code (the first such test case is named), or the script
+   itself was left with the skip code *)
 Theorem script_skip_has_cause : forall skip rs early k, exec_script2 skip rs early = ExSkipped k ->
-  (exists r, nth_error (produced rs early) k = Some r /\ status r = Code skip)
+  (exists r, nth_error (before_stop (produced rs early)) k = Some r /\ status r = Code skip)
   \/ (k = 0%nat /\ exists r, script_first_stop (produced rs early) = Some r /\ status r = ESkipped).
 Proof.
   intros skip rs early k H. unfold exec_script2 in H.
-  destruct (script_first_stop (produced rs early)) as [r|] eqn:S.
-  - right. destruct (status r) eqn:E; try discriminate. injection H as <-. split; [reflexivity|]. exists r. split; [reflexivity|exact E].
-  - left. destruct (find_skip skip (produced rs early) 0) as [i|] eqn:F.
-    + injection H as <-. destruct (find_skip_some _ _ _ _ F) as (j & r & -> & Hn & Hs & _). exists r. split; [exact Hn|exact Hs].
+  destruct (find_skip skip (before_stop (produced rs early)) 0) as [i|] eqn:F.
+  - left. injection H as <-. destruct (find_skip_some _ _ _ _ F) as (j & r & -> & Hn & Hs & _). exists r. split; [exact Hn|exact Hs].
+  - right. destruct (script_first_stop (produced rs early)) as [r|] eqn:S.
+    + destruct (status r) eqn:E; try discriminate. injection H as <-. split; [reflexivity|]. exists r. split; [reflexivity|exact E].
     + destruct early; discriminate.
 Qed.
-Theorem script_skip_detected : forall skip rs early j r, script_first_stop (produced rs early) = None ->
-  nth_error (produced rs early) j = Some r -> status r = Code skip ->
+Theorem script_skip_detected : forall skip rs early j r,
+  nth_error (before_stop (produced rs early)) j = Some r -> status r = Code skip ->
   exists k, (k <= j)%nat /\ exec_script2 skip rs early = ExSkipped k.
 Proof.
-  intros skip rs early j r S Hn Hs. unfold exec_script2. rewrite S.
-  destruct (find_skip skip (produced rs early) 0) as [i|] eqn:F.
+  intros skip rs early j r Hn Hs. unfold exec_script2.
+  destruct (find_skip skip (before_stop (produced rs early)) 0) as [i|] eqn:F.
   - exists i. split; [|reflexivity]. destruct (find_skip_some _ _ _ _ F) as (j' & r' & -> & Hn' & Hs' & Hb).
     destruct (Nat.le_gt_cases j' j) as [L|G]; [lia|]. exfalso. apply (Hb j r G Hn). exact Hs.
   - exfalso. exact (find_skip_none _ _ _ F j r Hn Hs).
